@@ -259,8 +259,24 @@ def run_spec(S, oracle_classes, wall=20, keep=False):
     R = Run(S)
     res = {"status": "ok", "prop": None, "clause": None, "msg": "", "step": 0}
     tap = DrawTap(S["draws"], R.log) if S.get("draws") is not None else None
-    old = signal.signal(signal.SIGALRM, _alarm)
-    signal.alarm(wall)
+    # Wall guard that tells a hang from a slow run on a loaded machine: a timer ticks every wall/3 seconds; a HANG is a whole
+    # tick without a single B-event completing while the engine is running; a run that keeps progressing is only cut off
+    # (as inconclusive, like a step cap) after 12 ticks.
+    watch = {"last": -1, "ticks": 0, "phase": "build"}
+
+    def _tick(signum, frame):
+        watch["ticks"] += 1
+        stuck = R.step == watch["last"] and watch["phase"] == phase_box[0]
+        watch["last"] = R.step
+        watch["phase"] = phase_box[0]
+        if stuck and watch["ticks"] >= 2:
+            raise Hang()
+        if watch["ticks"] >= 12:
+            raise Hang()
+
+    phase_box = ["build"]
+    old = signal.signal(signal.SIGALRM, _tick)
+    signal.setitimer(signal.ITIMER_REAL, wall / 3.0, wall / 3.0)
     phase = "build"
     try:
         try:
@@ -278,14 +294,14 @@ def run_spec(S, oracle_classes, wall=20, keep=False):
             except Exception as e:
                 res.update(status="badspec", msg="%s: %s" % (type(e).__name__, e))
                 return res
-            phase = "init"
+            phase = phase_box[0] = "init"
             sim = MonSim.__new__(MonSim)
             sim._R = R
             R.sim = sim
             MonSim.__init__(sim, R.B.network, **R.B.simkw)
             for o in R.oracles:
                 o.start()
-            phase = "run"
+            phase = phase_box[0] = "run"
             for op in S["plan"]:
                 R.op = op
                 if op[0] == "time":
@@ -320,15 +336,15 @@ def run_spec(S, oracle_classes, wall=20, keep=False):
                 else:
                     raise RuntimeError("unknown plan op %r" % (op,))
                 R.seg += 1
-                phase = "segment_end"
+                phase = phase_box[0] = "segment_end"
                 for o in R.oracles:
                     o.segment_end(op)
-                phase = "run"
-            phase = "finish"
+                phase = phase_box[0] = "run"
+            phase = phase_box[0] = "finish"
             for o in R.oracles:
                 o.finish()
         finally:
-            signal.alarm(0)
+            signal.setitimer(signal.ITIMER_REAL, 0)
             if tap is not None and hasattr(tap, "_saved"):
                 tap.uninstall()
     except Violation as v:
@@ -348,7 +364,13 @@ def run_spec(S, oracle_classes, wall=20, keep=False):
     except OutOfDomain as e:
         res.update(status="discard", msg=str(e))
     except Hang:
-        res.update(status="hang", prop="C14", clause="hang@" + phase, msg="wall guard %ds in phase %s" % (wall, phase))
+        stuck_in_engine = phase in ("init", "run") and watch["ticks"] < 12
+        if stuck_in_engine:
+            res.update(status="hang", prop="C14", clause="hang@" + phase,
+                       msg="no event completed within %.0f s (phase %s, step %d)" % (wall / 3.0, phase, R.step))
+        else:
+            res.update(status="cap", msg="slow run cut off by the wall guard in phase %s after %d ticks" % (phase, watch["ticks"]))
+            R.counts["wall_guard_cutoffs"] += 1
     except Exception as e:
         who, site = classify_exception(e)
         if who == "engine" and phase in ("init", "run"):
